@@ -215,7 +215,8 @@ SO3Base<_Derived>::log(OptJacobianRef J_t_m) const
   else
   {
     // small-angle approximation
-    log_coeff = Scalar(2.0);
+    // (q and -q are the same rotation: follow the hemisphere like the branch above)
+    log_coeff = (w() < Scalar(0.0)) ? Scalar(-2.0) : Scalar(2.0);
   }
 
   tan = Tangent(coeffs().template head<3>() * log_coeff);
